@@ -38,10 +38,26 @@ static int na, nr, be, have = 0;
 static struct { long long base, size, rd, wr, skip, hasw, kind; } A[MAXA];
 static long long canary_hits = 0;
 
+/* A callback-backed area may do book-keeping through the typed API from inside its callbacks (the accessors are expected to be
+ * re-entrant): every second callback call reads some register first.  (A callback area that also sets .mem is not a
+ * configuration the library supports: register_mcopy() takes a non-NULL .mem for the area's storage on the unchanged tree.) */
+static int cb_depth, in_init;    /* (no nesting while the table is being initialised: its registers are only partly linked then) */
+static unsigned cb_calls;
+static RegisterAtom *decoy[MAXA];
+static void cb_nested(void)
+{
+    if (cb_depth == 0 && have && !in_init && nr > 0 && (cb_calls++ % 2) == 0) {
+        RegisterValue tmp;
+        cb_depth++;
+        (void)register_get(&T, (RegisterHandle)(cb_calls % (unsigned)nr), &tmp);
+        cb_depth--;
+    }
+}
 static RegisterAccess cb_read(const RegisterArea *a, RegisterAtom *dst, RegisterOffset off, RegisterOffset n)
 {
     RegisterAccess rv = REG_ACCESS_RESULT_INIT;
     int i = (int)(a - areas);
+    cb_nested();
     memcpy(dst, store[i] + off, n * sizeof(RegisterAtom));
     return rv;
 }
@@ -49,6 +65,7 @@ static RegisterAccess cb_write(RegisterArea *a, const RegisterAtom *src, Registe
 {
     RegisterAccess rv = REG_ACCESS_RESULT_INIT;
     int i = (int)(a - areas);
+    cb_nested();
     memcpy(store[i] + off, src, n * sizeof(RegisterAtom));
     return rv;
 }
@@ -198,6 +215,7 @@ static void drop(void)
 {
     if (!have) return;
     for (int i = 0; i < na; i++) if (store[i]) { xfree(store[i]); store[i] = NULL; }
+    for (int i = 0; i < MAXA; i++) if (decoy[i]) { xfree(decoy[i]); decoy[i] = NULL; }
     xfree(areas); xfree(entries);
     areas = NULL; entries = NULL; have = 0; na = nr = 0;
 }
@@ -254,6 +272,7 @@ void adapter_exec(Ev *ev)
         ps_area = -1; ps_oob = 0;
         be = (int)ev->a[p++];
         na = (int)ev->a[p++];
+        int nr_hint = (int)ev->a[2 + 7 * na];
         areas = xblock(sizeof(RegisterArea) * (size_t)(na + 1));
         memset(areas, 0, sizeof(RegisterArea) * (size_t)(na + 1));
         for (int i = 0; i < na; i++) {
@@ -287,6 +306,7 @@ void adapter_exec(Ev *ev)
             } else {
                 memset(store[i], 0, sizeof(RegisterAtom) * (size_t)A[i].size); /* callback storage: the harness' own, starts at zero */
                 areas[i].mem = NULL;
+                (void)nr_hint;
                 areas[i].read = cb_read;
                 areas[i].write = A[i].hasw ? cb_write : NULL;
             }
@@ -318,7 +338,9 @@ void adapter_exec(Ev *ev)
         T.area = areas; T.entry = entries;
         register_make_bigendian(&T, be != 0);
         have = 1;
+        in_init = 1;
         RegisterInit ri = register_init(&T);
+        in_init = 0;
         obs(ev, (long long)ri.code);
         if (ri.code == REG_INIT_SUCCESS) {
             obs(ev, 0);
